@@ -18,6 +18,9 @@ def bootstrap():
             sys.path.remove(p)
     sys.path.insert(0, stubs)
     sys.path.insert(0, CURIES_SRC)
+    import logging
+
+    logging.disable(logging.CRITICAL)  # the library logs skipped JSON-LD terms etc.; not part of any oracle
     import curies  # noqa
 
     f = os.path.abspath(curies.__file__)
